@@ -218,6 +218,13 @@ def expectedLockUse : List (String × String × String) := [
 
 theorem lockUse_tie : lockUse = expectedLockUse := by decide
 
+/-- The whole-batch rejection of both batch entry points tests `len(tuples) > max` (strictly). -/
+def expectedBatchGuards : List (String × String × String) := [
+  ("internal/check/handler.go", "Handler.doBatchCheck", ">"),
+  ("internal/check/handler.go", "Handler.BatchCheck", ">")]
+
+theorem batchGuards_tie : batchGuards = expectedBatchGuards := by decide
+
 end Keto.FactsTie
 
 namespace Keto.FactsTie
